@@ -9,8 +9,9 @@ THEOREM_NAMES = ['ignore_skips', 'ignored_reaction_survives', 'reaction_missing_
                  'dl_domain_lengths', 'read_domains_sigma', 'read_sequences_sigma', 'read_strands_sigma',
                  'read_scomplexes_sigma', 'read_kernels_sigma', 'read_duplicate_refused',
                  'read_pil_domains_text', 'read_pil_strands_text', 'read_pil_complexes_text', 'read_pil_kernels_text',
-                 'read_macrostates_sigma', 'macrostate_redeclared', 'read_reactions_sigma', 'reaction_redeclared']
-THEOREMS = ['Dsd.C14.' + t for t in THEOREM_NAMES] + ['Dsd.TextSig.render_parses']
+                 'read_macrostates_sigma', 'macrostate_redeclared', 'read_reactions_sigma', 'reaction_redeclared',
+                 'read_xkernels_sigma', 'read_pil_macrostates_text', 'read_pil_reactions_text', 'e2_readPil', 'e2_from_theorems']
+THEOREMS = ['Dsd.C14.' + t for t in THEOREM_NAMES] + ['Dsd.TextSig.render_parses', 'Dsd.TextSig.render_parses6']
 ASSUMPTIONS = [
     'consistent systems are generated from an abstract model (domains with lengths or IUPAC sequences, strands / composite domains, '
     'complexes in kernel and strand notation, concentrations, macrostates named after a member, detailed and condensed reactions, '
@@ -39,14 +40,19 @@ MANIFEST = {
             'under the same name return the same object, another member set is a SingletonError), read_reactions_sigma (plus '
             'reactions with info box and ignorable reactions interleaved: condensed ones exactly in con_reactions, the others exactly '
             'in det_reactions, no duplicates, sorted reactant / product keys, type, rate literal and units, children = member objects; '
-            'ignorable lines only counted; reaction_redeclared: a second declaration adds nothing). ON TEXT: render_parses (the canonical rendering of a declared '
+            'ignorable lines only counted; reaction_redeclared: a second declaration adds nothing), read_xkernels_sigma (kernel strings '
+            'that use COMPOSITE domains - a declared strand or the complement of one - are expanded by the reader\'s fallback loop to '
+            'the strand\'s domains resp. the reversed complements, the structure character copied). ON TEXT: render_parses (the canonical rendering of a declared '
             'system parses - C13.document_rt + statement instances - to literally the token trees of the theorems above) and '
             'read_pil_domains_text / _strands_text / _complexes_text / _kernels_text: parseDoc followed by readDoc on the rendered text '
-            'succeeds with the same conclusions, i.e. read_pil(render(system)) = system on the model. Clause theorems: ignore_skips, ignored_reaction_survives, '
+            'succeeds with the same conclusions, i.e. read_pil(render(system)) = system on the model; render_parses6, '
+            'read_pil_macrostates_text, read_pil_reactions_text extend this to macrostates and reactions (info-box types that are '
+            'letters-only, digit rates); e2_readPil / e2_from_theorems: one complete 14-line system text (domains, strands, complexes in '
+            'both notations with a concentration, two macrostates, a detailed, a condensed and two ignorable reactions) evaluated end '
+            'to end by the kernel and, independently, obtained from the theorems. Clause theorems: ignore_skips, ignored_reaction_survives, '
             'reaction_missing_member, complement_sequence_strong, failed_read_restores, sl_domain_length_mismatch, dl_domain_lengths; '
-            'component theorems of C01, C02, C12/C13 (kernel_rt, resolve_kernel_inverse) and C17. Kernel strings that use composite domains '
-            '(the reader\'s fallback loop) and the numeric interpretation of rate / concentration literals (float, flint) have no '
-            'theorem: for them the property is decided on the real reader by an independent abstract model of PIL '
+            'component theorems of C01, C02, C12/C13 (kernel_rt, resolve_kernel_inverse) and C17. The numeric interpretation of rate / '
+            'concentration literals (float, flint) has no theorem: for it the property is decided on the real reader by an independent abstract model of PIL '
             'systems (all attributes, identical singletons, `ignore`, line vs document, several documents per configured session) plus '
             'the model correspondence.',
     'note': 'End-to-end exactness is a theorem for all five kinds of object (kernel strings without composite domains; numbers as literals); the rest is '
